@@ -1,0 +1,86 @@
+// Copyright 2025 The Go Authors. All rights reserved.
+// Use of this source code is governed by a BSD-style
+// license that can be found in the LICENSE file.
+
+//go:build verif
+
+package quic
+
+// Contracts for the deductive verifier in /verif (govc), property C20: the initial stream-level
+// send window (Stream.outwin) of a new stream is the limit the peer announced for that kind of
+// stream in its transport parameters (RFC 9000 section 18.2):
+//   - initial_max_stream_data_bidi_remote / initial_max_stream_data_uni apply to streams opened by
+//     the RECEIVER of the parameters, i.e. the streams we open (peerInitialMaxStreamDataRemote[type]);
+//   - initial_max_stream_data_bidi_local applies to bidirectional streams opened by the SENDER of
+//     the parameters, i.e. the streams the peer opens (peerInitialMaxStreamDataBidiLocal);
+//   - a unidirectional stream opened by the peer has no send side: its send window stays 0.
+
+// newStream: a fresh stream object for (c, id) with empty windows.
+//
+//@ func newStream(c, id) (r)
+//@   havoccalls except Stream.conn, Stream.id, Stream.outwin, Stream.inwin, Stream.outmaxbuf, Stream.inmaxbuf, Stream.insize, Stream.inresetcode, Stream.outmaxsent
+//@   abstract
+//@   allocates
+//@   ensures  r != nil && fresh(r) && r.conn == c && r.id == id
+//@   ensures  r.outwin == 0 && r.inwin == 0 && r.outmaxbuf == 0 && r.inmaxbuf == 0 && r.outmaxsent == 0
+//@   ensures  r.insize == -1 && r.inresetcode == -1
+//@   partial nopanic, pre
+//@   noframe
+
+// receiveTransportParameters stores the peer's three initial stream windows in the fields that
+// newLocalStream and streamForFrame read. (The engine's `havoccalls except` cannot keep the
+// array-typed field peerInitialMaxStreamDataRemote across abstracted calls, so the two array
+// elements are asserted at the first call after the stores; the scalar field is a postcondition.)
+//
+//@ func (*Conn).receiveTransportParameters(c, p) (err)
+//@   havocs except Stream.outwin, Stream.conn, Stream.id, Conn.side
+//@   havoccalls except streamsState.peerInitialMaxStreamDataBidiLocal, Stream.outwin, Stream.conn, Stream.id, Conn.side
+//@   requires c != nil
+//@   ghost stored += 1 at call receivePeerMaxIdleTimeout
+//@   assert at call receivePeerMaxIdleTimeout: c.streams.peerInitialMaxStreamDataBidiLocal == p.initialMaxStreamDataBidiLocal
+//@   assert at call receivePeerMaxIdleTimeout: c.streams.peerInitialMaxStreamDataRemote[bidiStream] == p.initialMaxStreamDataBidiRemote
+//@   assert at call receivePeerMaxIdleTimeout: c.streams.peerInitialMaxStreamDataRemote[uniStream] == p.initialMaxStreamDataUni
+//@   ensures  err == nil ==> c.streams.peerInitialMaxStreamDataBidiLocal == p.initialMaxStreamDataBidiLocal
+//@   ensures  err == nil ==> ghost(stored) == 1
+//@   partial nopanic, pre
+//@   noframe
+
+// newLocalStream: a stream we open starts with the peer's limit for streams opened by the
+// receiver of the transport parameters: when its gates are unlocked (first use of the new stream)
+// its send window is peerInitialMaxStreamDataRemote[type] and its id has our side as initiator and
+// the requested type; every successful return has passed the registration on the connection loop
+// once. (The function's result is the captured variable s, which the abstracted calls inUnlock,
+// outUnlock and runOnLoop could reassign as far as the engine knows, hence a call-site assertion
+// at the first use instead of a postcondition about the result.)
+//
+//@ func (*Conn).newLocalStream(c, ctx, styp) (r, err)
+//@   havocs except Stream.conn, Stream.id, Stream.outwin, Conn.side, streamsState.peerInitialMaxStreamDataBidiLocal
+//@   havoccalls except Stream.conn, Stream.id, Stream.outwin, Conn.side, streamsState.peerInitialMaxStreamDataBidiLocal
+//@   requires c != nil && (styp == bidiStream || styp == uniStream) && (c.side == clientSide || c.side == serverSide)
+//@   allocates
+//@   ghost published += 1 at call runOnLoop
+//@   assert at call inUnlock: s != nil && s.conn == c && s.outwin == c.streams.peerInitialMaxStreamDataRemote[styp]
+//@   assert at call inUnlock: s.id.streamType() == styp && s.id.initiator() == c.side
+//@   ensures  err == nil ==> ghost(published) == 1
+//@   partial nopanic, pre
+//@   noframe
+
+// streamForFrame: a stream created for a frame of the peer (the result is a fresh object exactly
+// when the stream is created here) starts with the peer's initial_max_stream_data_bidi_local when
+// it is bidirectional and with no send window when it is unidirectional; the stream handed to the
+// accept queue is that stream, already initialised.
+//
+//@ func (*Conn).streamForFrame(c, now, id, ftype) (r)
+//@   havocs except Stream.conn, Stream.id, Stream.outwin, Conn.side, streamsState.peerInitialMaxStreamDataBidiLocal
+//@   havoccalls except Stream.conn, Stream.id, Stream.outwin, Conn.side, streamsState.peerInitialMaxStreamDataBidiLocal
+//@   requires c != nil
+//@   allocates
+//@   loop 1 invariant c != nil
+//@   assert at call put: id.initiator() != c.side
+//@   assert at call put: id.streamType() == bidiStream ==> s.outwin == old(c.streams.peerInitialMaxStreamDataBidiLocal)
+//@   assert at call put: id.streamType() == uniStream ==> s.outwin == 0
+//@   ensures  r != nil && old(c.streams.streams[id].s) == nil ==> r.id == id && r.conn == c && id.initiator() != c.side
+//@   ensures  r != nil && old(c.streams.streams[id].s) == nil && id.streamType() == bidiStream ==> r.outwin == old(c.streams.peerInitialMaxStreamDataBidiLocal)
+//@   ensures  r != nil && old(c.streams.streams[id].s) == nil && id.streamType() == uniStream ==> r.outwin == 0
+//@   partial nopanic, pre
+//@   noframe
